@@ -248,6 +248,7 @@ impl C04 {
         rng.shuffle(&mut remaining);
         let steps = 1 + rng.usize_below(3);
         let mut history: Vec<BTreeMap<u64, v1::Function>> = vec![];
+        let mut tiny_used = false;
         for _ in 0..steps {
             if remaining.len() < 2 {
                 break;
@@ -256,7 +257,17 @@ impl C04 {
             let keys: Vec<u64> = remaining.drain(..nrep).collect();
             let mut map = BTreeMap::new();
             for k in keys {
-                map.insert(k, gen_replacement(rng, &remaining, Regime::D));
+                let mut r = gen_replacement(rng, &remaining, Regime::D);
+                // one replacement in eight carries a term of weight 2^-22: its value is then a hair's breadth
+                // (2e-7 .. 1e-6) away from where it would be without it, e.g. from an integer
+                if rng.chance(1, 8) && !remaining.is_empty() {
+                    let mut terms = stored_terms(&r);
+                    terms.push((vec![*rng.pick(&remaining)], *rng.pick(&[2.384185791015625e-7, -2.384185791015625e-7, 4.76837158203125e-7])));
+                    r = f_polynomial(polynomial(terms));
+                    mon.facet("instance/replacement-with-2^-22-term");
+                    tiny_used = true;
+                }
+                map.insert(k, r);
             }
             history.push(map);
         }
@@ -386,11 +397,23 @@ impl C04 {
                     mon.sample(json!({"level": "instance", "history": format!("{history:?}"), "state": format!("{st:?}"), "reported_state": format!("{:?}", sol.state.as_ref().map(sorted_state))}));
                 }
                 // values of objective / constraints: original functions at the extended assignment
+                // coefficients of size 2^-22 raised to a power fall below f64::EPSILON and are dropped by the
+                // documented normalisation; multiplied by state values of size 2^30 .. 2^52 (variables with huge
+                // bounds) what is dropped is no longer small. Function values are judged only where it is.
+                let dropping_matters = tiny_used && st.values().any(|v| v.abs() > 8.0);
+                if dropping_matters {
+                    mon.facet("instance-value-not-judged:below-epsilon-coefficients-times-huge-values");
+                }
                 let check = |what: &str, sig: &str, orig: &v1::Function, after: &v1::Function, got: f64, mon: &mut Monitor| {
+                    if dropping_matters {
+                        return;
+                    }
                     let expected = canon_function(orig).eval(&ext).expect("extended assignment is total");
                     let after_exact = eval_is_exact(&stored_terms(after), &st);
                     // the substituted function must itself be an exact composition for a bit-exact verdict
-                    let certified = chain_exact && after_exact && history.iter().all(|m| substitute_is_exact(orig, m)) && expected.abs() < two_pow(40);
+                    // (powers of a 23-bit coefficient outgrow the certificate's bit budget: those cases are judged
+                    // by the bound; the replaced variable's own value below stays an exact comparison)
+                    let certified = !tiny_used && chain_exact && after_exact && history.iter().all(|m| substitute_is_exact(orig, m)) && expected.abs() < two_pow(40);
                     let ok = if certified {
                         f64_eq_q(got, &expected)
                     } else {
@@ -532,6 +555,10 @@ impl C04 {
         let dangling = rng.chance(1, 8);
         let dangling_kind = rng.below(2); // 0: undefined id, 1: defined variable that has no value
         let mut deps: BTreeMap<u64, v1::Function> = BTreeMap::new();
+        let product_mode = rng.chance(1, 4);
+        if product_mode {
+            mon.facet("graph/references-inside-products");
+        }
         for i in 0..n {
             let mut terms = vec![];
             for id in &indep {
@@ -543,17 +570,43 @@ impl C04 {
             if rng.chance(1, 3) {
                 terms.push((3, small_coef(rng)));
             }
+            // in a quarter of the graphs a reference to another dependent (or to the dangling id) may sit
+            // inside a product with an independent variable, whose value may well be 0: the reference is
+            // a reference all the same, so cycles and dangling ids must still be refused
+            let mut products: Vec<(u64, u64, f64)> = vec![];
             for (a, b) in &edges {
                 if *a == i {
                     let c = if n > 8 { *rng.pick(&[1.0, -1.0]) } else { small_coef(rng) };
-                    terms.push((dep_id(*b), c));
+                    if product_mode && rng.bool() {
+                        products.push((*rng.pick(&indep), dep_id(*b), c));
+                    } else {
+                        terms.push((dep_id(*b), c));
+                    }
                 }
             }
             if dangling && i == 0 {
-                terms.push((if dangling_kind == 0 { 777_777 } else { 50_000 }, 1.0));
+                let d = if dangling_kind == 0 { 777_777 } else { 50_000 };
+                if product_mode && rng.bool() {
+                    products.push((*rng.pick(&indep), d, 1.0));
+                } else {
+                    terms.push((d, 1.0));
+                }
             }
             rng.shuffle(&mut terms);
-            let f = if rng.chance(1, 4) && terms.len() >= 2 {
+            let f = if !products.is_empty() {
+                if rng.bool() {
+                    let entries: Vec<(u64, u64, f64)> = products.iter().map(|(a, b, c)| if rng.bool() { (*a, *b, *c) } else { (*b, *a, *c) }).collect();
+                    f_quadratic(quadratic(entries, Some(linear(terms, small_coef(rng)))))
+                } else {
+                    let mut mono: Vec<(Vec<u64>, f64)> = terms.iter().map(|(i, c)| (vec![*i], *c)).collect();
+                    for (a, b, c) in &products {
+                        mono.push((if rng.bool() { vec![*a, *b] } else { vec![*b, *a] }, *c));
+                    }
+                    mono.push((vec![], 0.5));
+                    rng.shuffle(&mut mono);
+                    f_polynomial(polynomial(mono))
+                }
+            } else if rng.chance(1, 4) && terms.len() >= 2 {
                 // same function as a polynomial / quadratic message
                 f_polynomial(polynomial(terms.iter().map(|(i, c)| (vec![*i], *c)).chain(std::iter::once((vec![], 0.5))).collect()))
             } else {
@@ -678,7 +731,7 @@ impl Property for C04 {
         }
     }
     fn rule(&self) -> &'static str {
-        "case k mod 3: (0) Function::substitute of a hostile function with a 1-4 entry replacement map of degree<=2 (replacements may mention replaced variables), result compared coefficient-wise with exact simultaneous substitution and pointwise at a random assignment; (1) a history of 1-3 Instance::substitute calls (replacements over remaining variables only) followed by evaluate at a state over the remaining variables: objective / active / removed constraint values against the original functions at the assignment extended by the reference chain, every replaced variable reported with its replacement's value; (2) dependency maps written directly: every digraph (self-loops included) on 1-3 dependent variables, each 20x (quick) / 400x (thorough) with freshly built hash maps, then random graphs on 4-5 variables (chains, DAGs, closed chains, random) each rebuilt 6 times, optional dangling references; evaluate must return the reference values or fail, inside a generous hook budget (4n+8 passes, 4n(n+1)+16 visits: a hang becomes a verdict, the algorithm is not prescribed). Non-trivial = a replaced variable occurs / a graph case; distinct = fingerprint of inputs (graphs: of the edge set)."
+        "case k mod 3: (0) Function::substitute of a hostile function with a 1-4 entry replacement map of degree<=2 (replacements may mention replaced variables), result compared coefficient-wise with exact simultaneous substitution and pointwise at a random assignment; (1) a history of 1-3 Instance::substitute calls (replacements over remaining variables only) followed by evaluate at a state over the remaining variables: objective / active / removed constraint values against the original functions at the assignment extended by the reference chain, every replaced variable reported with its replacement's value; (2) dependency maps written directly: every digraph (self-loops included) on 1-3 dependent variables, each 20x (quick) / 400x (thorough) with freshly built hash maps, then random graphs on 4-5 variables (chains, DAGs, closed chains, random) each rebuilt 6 times, optional dangling references, in a quarter of the graphs references sit inside products with independent variables (whose values include 0); evaluate must return the reference values or fail, inside a generous hook budget (4n+8 passes, 4n(n+1)+16 visits: a hang becomes a verdict, the algorithm is not prescribed). Non-trivial = a replaced variable occurs / a graph case; distinct = fingerprint of inputs (graphs: of the edge set)."
     }
     fn assumptions(&self) -> Vec<&'static str> {
         vec![
